@@ -268,7 +268,8 @@ func runCase(t vh.TB, c *Case) vh.Outcome {
 	}
 	gotIDs := s.header.Values("X-Inverting-Proxy-User-Id")
 	if c.Config&1 != 0 {
-		if len(gotIDs) != 1 || gotIDs[0] != c.Asserted {
+		blank := c.Asserted == "" && len(gotIDs) == 0 // an empty identity may arrive as an empty value or as no field at all
+		if !blank && (len(gotIDs) != 1 || gotIDs[0] != c.Asserted) {
 			o.Err = fmt.Errorf("with --forward-user-id the backend's %s carried X-Inverting-Proxy-User-ID values %q; expected exactly the asserted identity %q (client supplied %q)", where, gotIDs, c.Asserted, clientIDs)
 			return o
 		}
